@@ -37,10 +37,15 @@ type hsm struct {
 	otherPriv ed25519.PrivateKey
 	otherPub  ed25519.PublicKey
 	signCalls int
+	yield     func() // cooperative scheduling: the remote signer takes time, other callers run meanwhile
 }
 
 func (h *hsm) Sign(data []byte) ([]byte, error) {
 	h.signCalls++
+	if h.yield != nil {
+		h.yield()
+		defer h.yield()
+	}
 	switch h.fault {
 	case "sign-error":
 		h.c.Fault("hsm-sign-error")
@@ -61,6 +66,9 @@ func (h *hsm) Sign(data []byte) ([]byte, error) {
 }
 
 func (h *hsm) GetPublicKey() (ed25519.PublicKey, error) {
+	if h.yield != nil {
+		h.yield()
+	}
 	switch h.fault {
 	case "pubkey-error":
 		h.c.Fault("hsm-getpublickey-error")
@@ -603,6 +611,88 @@ func TestCommandFlags(t *testing.T) {
 			sum := sha512.Sum512(data)
 			checkBlock(c, written[:len(written)-len(data)], sum[:], 1, "SignWithIntegrityBlockWithCmdFlags")
 			c.Outcome("nt:signed")
+		})
+	})
+}
+
+// TestConcurrentSigners: several callers, each signing its OWN bundle with its own
+// block, signer object and remote signing party, run as cooperative tasks; a
+// caller parks while its signing party works (before and after it produced the
+// signature, and at every public-key request) and the next caller to run is a
+// draw. Every block must afterwards be exactly what its caller would have got
+// alone: each listed signature verifies over that caller's data-to-be-signed.
+func TestConcurrentSigners(t *testing.T) {
+	rapid.Check(t, func(t *rapid.T) {
+		core.Run(t, "ib/concurrent-signers", func(c *core.Ctx) {
+			n := c.Int("callers", 2, 3)
+			type caller struct {
+				hash   []byte
+				blk    *integrityblock.IntegrityBlock
+				ibs    *integrityblock.IntegrityBlockSigner
+				hs     []*hsm
+				attrs  []integrityblock.SignatureAttributesMap
+				errs   []error
+				blocks [][]byte
+			}
+			cs := make([]*caller, n)
+			sameSize := c.Bool("sameSizedInputs")
+			for i := range cs {
+				data := c.Bytes(fmt.Sprintf("file%d.data", i), 8, 200)
+				sum := sha512.Sum512(data)
+				cl := &caller{hash: sum[:], blk: &integrityblock.IntegrityBlock{Magic: integrityblock.IntegrityBlockMagic, Version: integrityblock.VersionB1}}
+				cl.ibs = &integrityblock.IntegrityBlockSigner{WebBundleHash: cl.hash, IntegrityBlock: cl.blk}
+				k := c.Int(fmt.Sprintf("caller%d.signings", i), 1, 3)
+				for j := 0; j < k; j++ {
+					h := newHSM(c, fmt.Sprintf("hsm%d.%d", i, j), false)
+					cl.hs = append(cl.hs, h)
+					if sameSize {
+						cl.attrs = append(cl.attrs, integrityblock.SignatureAttributesMap{integrityblock.Ed25519publicKeyAttributeName: []byte(h.pub)})
+					} else {
+						cl.attrs = append(cl.attrs, extraAttrs(c, h.pub))
+					}
+				}
+				cs[i] = cl
+			}
+			tasks := make([]func(yield func()), n)
+			for i := range cs {
+				cl := cs[i]
+				tasks[i] = func(yield func()) {
+					for j, h := range cl.hs {
+						h.yield = yield
+						cl.ibs.SigningStrategy = h
+						pub, _ := h.GetPublicKey()
+						err := cl.ibs.SignAndAddNewSignature(pub, cl.attrs[j])
+						cl.errs = append(cl.errs, err)
+						yield()
+						bb, _ := cl.blk.CborBytes()
+						cl.blocks = append(cl.blocks, bb)
+					}
+				}
+			}
+			sched, panics := c.RunTasks("sched", tasks)
+			c.Event("schedule %s", sched)
+			c.Fault("interleaved-callers")
+			for i, cl := range cs {
+				if panics[i] != nil {
+					if c.Oracle("C10", "C07") {
+						c.Violation("panic", "SignAndAddNewSignature(concurrent)", "caller %d panicked: %v", i, panics[i])
+					}
+					continue
+				}
+				if !c.Oracle("C07") {
+					continue
+				}
+				for j, err := range cl.errs {
+					if err != nil {
+						c.Violation("sign-error", "SignAndAddNewSignature(concurrent)", "caller %d signing %d: honest strategy refused while other callers were signing their own bundles: %v", i, j, err)
+					}
+				}
+				for j, bb := range cl.blocks {
+					checkBlock(c, bb, cl.hash, j+1, fmt.Sprintf("concurrent-callers"))
+				}
+			}
+			c.Outcome("nt:ok")
+			c.Sig("n%d/%s", n, sched)
 		})
 	})
 }
